@@ -1,5 +1,6 @@
 import GoldModel.Model.Grammar
 import GoldModel.Gen.E6_AltOrders
+import GoldModel.Gen.E6b_TokenLists
 /-!
 # C06 / tie 1 — the ordered choices of the model grammar follow the source
 
@@ -98,5 +99,59 @@ theorem all_names_known :
        "parse_assignment", "parse_expr", "_parse_control_statements", "parse_return_statement", "parse_procedure_declaration",
        "parse_function_declaration", "parse_class", "parse_module", "parse_global_variable_declaration", "parse_annotations"].contains n) = true := by
   decide +kernel
+
+/-! ## token alternatives and stop tokens (E6b) -/
+
+/-- `g` is a (nested) choice between single tokens -/
+def tokAlts : G → Option (List Kind)
+  | .tok k => some [k]
+  | .alt a b => match tokAlts a, tokAlts b with
+    | some x, some y => some (x ++ y)
+    | _, _ => none
+  | _ => none
+
+/-- every maximal token choice, `ifTok` list and stop-token list that occurs in `g` (references not followed) -/
+def kindLists : G → List (List Kind)
+  | .tok k => [[k]]
+  | .alt a b => match tokAlts (.alt a b) with
+    | some l => [l]
+    | none => kindLists a ++ kindLists b
+  | .seq a b => kindLists a ++ kindLists b
+  | .opt a => kindLists a
+  | .map _ g => kindLists g
+  | .check _ _ g => kindLists g
+  | .ifTok ks a b => ks :: (kindLists a ++ kindLists b)
+  | .ifEof a b => kindLists a ++ kindLists b
+  | .recover _ g => kindLists g
+  | .catchErr g => kindLists g
+  | .dep a _ b => kindLists a ++ kindLists b
+  | .emit _ g => kindLists g
+  | .reslice stops inner => stops :: kindLists inner
+  | .skipTo stops => [stops]
+  | .prepend _ g => kindLists g
+  | _ => []
+
+/-- the `i`-th token list of function `fn`, as read from the source -/
+def T (fn : String) (i : Nat) : List Kind :=
+  (((Gen.tokenLists.find? (fun r => r.1 == fn)).map (fun r => r.2)).getD []).getD i []
+
+theorem ident_kinds : identKinds = T "parse_ident_token" 0 := by decide +kernel
+theorem literal_kinds : (kindLists gLiteralBasic).contains (T "parse_literal_basic" 0) = true := by decide +kernel
+theorem unary_pre_kinds : (kindLists gUnaryPre).contains (T "parse_unary_op_pre" 0) = true := by decide +kernel
+theorem unary_post_kinds : (kindLists gUnaryPost).contains (T "parse_unary_op_post" 0) = true := by decide +kernel
+theorem assignment_kinds : (kindLists gAssignment).contains (T "parse_assignment" 0) = true := by decide +kernel
+theorem control_kinds : (kindLists gControl).contains (T "_parse_control_statements" 0) = true := by decide +kernel
+theorem for_range_kinds : (kindLists gForRangeTail).contains (T "parse_for_block" 0) = true := by decide +kernel
+theorem for_stop_kinds : (kindLists (Γ nUntilEndFor)).contains (T "parse_for_block" 1) = true := by decide +kernel
+theorem foreach_stop_kinds : (kindLists (Γ nUntilEndFor)).contains (T "parse_foreach_block" 0) = true := by decide +kernel
+theorem while_stop_kinds : (kindLists (Γ nUntilEndWhile)).contains (T "parse_while_block" 0) = true := by decide +kernel
+theorem loop_stop_kinds : (kindLists (Γ nUntilEndLoop)).contains (T "parse_loop_block" 0) = true := by decide +kernel
+/-- `if`: the model tests `elseif`, `else`, `endif | end` one after the other -/
+theorem if_stop_kinds : (kindLists gIfUntil).flatten = T "parse_if_block_v3" 0 := by decide +kernel
+theorem member_mod_kinds : memberModKinds = T "parse_member_modifier_tokens" 0 := by decide +kernel
+theorem param_mod_kinds : (kindLists gParamDecl).contains (T "parse_parameter_declaration" 0) = true := by decide +kernel
+theorem type_reference_kinds : (kindLists gTypeReference).contains (T "parse_type_reference" 0) = true := by decide +kernel
+theorem type_array_kinds : (kindLists gTypeArray).contains (T "parse_type_array" 0) = true := by decide +kernel
+theorem const_value_kinds : (kindLists gConstDecl).contains (T "parse_constant_declaration" 0) = true := by decide +kernel
 
 end Gold.C06
